@@ -122,6 +122,17 @@ class Mid(Base):
 class L(Mid):
     w: List[int] = field(default_factory=list)
 ''',
+    "reannotated": '''
+@dataclass
+class Base(DataClassDictMixin):
+    r: Optional[int] = 3
+    items: List[int] = field(default_factory=list)
+    name: str = "n"
+
+@dataclass
+class L(Base):
+    r: int          # annotated again without a value: dataclasses keeps the parent's default 3
+''',
     "slots": '''
 @dataclass(slots=True)
 class L(DataClassDictMixin):
